@@ -115,7 +115,24 @@ def keyfn(kf):
         return lambda x: size(x) % 2
     if kf == 'const':
         return lambda x: 7
+    if kf == 'big':
+        return lambda x: 2 ** 60 + size(x)
+    if kf == 'biginf':
+        return lambda x: float('inf') if size(x) == 0 else 2 ** 60 + size(x)
+    if kf == 'fs2':
+        return lambda x: frozenset({size(x) % 2})
+    if kf == 'mix2':
+        return lambda x: None if size(x) % 2 == 0 else 'odd'
     raise ValueError(kf)
+
+
+def group_key(kf, sel):
+    """The Python group id that stands for the integer id `sel` of the spec."""
+    if kf == 'fs2':
+        return frozenset({sel})
+    if kf == 'mix2':
+        return None if sel == 0 else ('odd' if sel == 1 else ('no-such-group', sel))
+    return sel
 
 
 def failing(p, cls):
